@@ -1580,4 +1580,265 @@ def check_C13(tier, seed):
                     extra_cov={"policies": policies})
 
 
-CHECKS = {"C13": check_C13, "C12": check_C12, "C19": check_C19, "C05": check_C05, "C18": check_C18, "C09": check_C09, "C15": check_C15, "C07": check_C07, "C10": check_C10, "C14": check_C14, "C04": check_C04, "C08": check_C08, "C01": check_C01, "C02": check_C02, "C03": check_C03, "C06": check_C06, "C17": check_C17}
+# ---------------------------------------------------------------------------
+def check_C20(tier, seed):
+    sys_path_gen()
+    import gen
+    import templates_emit as TE
+    t0 = time.time()
+    out = F.Outcome("C20")
+    rng = random.Random(seed)
+    MOD, TCFG = "TraceTemplates.tla", "TraceTemplates.cfg"
+    r = C.tlc_model("Templates.tla", "Templates_small.cfg")
+    out.model_states += r.generated
+    out.model_distinct += r.distinct
+    fam = r.printed()
+    out.model_runs.append({"module": "Templates.tla", "cfg": "Templates_small.cfg", "generated": r.generated, "distinct": r.distinct, "emitted": len(fam), "ok": r.ok})
+    if not r.ok:
+        raise F.ModelViolation("Templates.tla", "Templates_small.cfg", r.out)
+    if tier == "thorough":
+        F.model_check(out, "Templates.tla", "Templates_big.cfg", timeout=3000)
+    chosen = fam if tier == "thorough" else rng.sample(fam, min(len(fam), 192))
+    programs, sources = {}, {}
+    per = 24
+    for b in range(0, len(chosen), per):
+        scen = [(b + i, [list(l) for l in s["lists"]], [list(u) for u in s["undef"]]) for i, s in enumerate(chosen[b:b + per])]
+        name = "tmpl%d" % (b // per)
+        sources[name] = TE.program(name, scen, 3)
+    # longer lists, three lists, random not_defined subsets
+    scen = []
+    for i in range(16 if tier == "quick" else 200):
+        K = 5
+        lists = [rng.sample(range(1, K + 1), rng.randrange(1, 5)) for _ in range(rng.randrange(1, 4))]
+        prod = [[]]
+        for l in lists:
+            prod = [p + [c] for p in prod for c in l]
+        und = [p for p in prod if rng.random() < 0.3]
+        scen.append((1000 + i, lists, und))
+    for b in range(0, len(scen), 8):
+        sources["tmplr%d" % (b // 8)] = TE.program("tmplr%d" % (b // 8), scen[b:b + 8], 5)
+    # products on both sides of the 512-element split of aggregate<>
+    sizes = [(27, 19)] if tier == "quick" else [(25, 20), (32, 16), (27, 19), (30, 20)]    # 500, 512, 513, 600
+    for a, bb in sizes:
+        K = max(a, bb)
+        l1, l2 = list(range(1, a + 1)), list(range(1, bb + 1))
+        und = [[rng.choice(l1), rng.choice(l2)] for _ in range(5)]
+        und = [list(x) for x in {tuple(u) for u in und}]
+        sources["big%d" % (a * bb)] = TE.program("big%d" % (a * bb), [(9000 + a * bb, [l1, l2], und)], K)
+    res = gen.build_and_run(sources)
+    F.validate_program_outputs("C20", res, sources, out, "c20", TCFG, MOD)
+    if tier == "thorough":
+        res2 = gen.build_and_run({k + "_clang": v.replace('"script\\":\\"%s' % k, '"script\\":\\"%s_clang' % k) for k, v in sources.items()}, cxx="clang++")
+        F.validate_program_outputs("C20", res2, {k + "_clang": v for k, v in sources.items()}, out, "c20-clang", TCFG, MOD)
+        out.notes.append("all programs also built with clang++")
+    # negative control on a recorded log: drop one catalog entry
+    n0 = sorted(res)[0]
+    if res[n0][0] == 0:
+        lines = [ln for ln in res[n0][1].splitlines() if ln.startswith("{")]
+        bad = []
+        done = False
+        for ln in lines:
+            ev = json.loads(ln)
+            if not done and ev.get("e") == "tmpl" and ev["catalog"]:
+                ev["catalog"] = ev["catalog"][1:]
+                done = True
+                ln = json.dumps(ev, separators=(",", ":"))
+            bad.append(ln)
+        tp = os.path.join(C.scratch(), "c20.corrupt.ndjson")
+        with open(tp, "w") as f:
+            f.write("\n".join(bad) + "\n")
+        _, rj = C.validate_trace(MOD, TCFG, tp, parts=1)
+        out.selftests.append({"label": "one definition removed from a recorded catalog", "applied": done, "clean_accepted": True, "corrupt_rejected": bool(rj)})
+    return F.report("C20", tier, seed, out, t0, LEVEL,
+                    rule="a case = one generated C++ program (compiled against the library) holding several use_definitions instances: type lists "
+                         "(1-3 lists, 1-4 classes each) and a set of combinations specialised as not_defined, taken from the TLC-enumerated family "
+                         "(Templates.tla) plus random larger ones, plus products of 500..600 elements around the 512-element split of aggregate<>; each "
+                         "logs the order of product<>, the definitions found in the method's catalog and the result of calling every class tuple; "
+                         "distinct_nontrivial = distinct programs (scenarios: see trace_action_counts.tmpl)",
+                    assumptions=["the C++ compiler (g++; thorough also clang++) is the reference for template expansion: the specification supplies "
+                                 "the enumeration of the program family and the acceptance condition for each program's log",
+                                 "TLC 1.8.0"],
+                    extra_cov={"scenarios_from_tlc": len(chosen), "programs": len(sources)})
+
+
+def sys_path_gen():
+    import sys
+    if "/verif/gen" not in sys.path:
+        sys.path.insert(0, "/verif/gen")
+
+
+# ---------------------------------------------------------------------------
+def check_C11(tier, seed):
+    sys_path_gen()
+    import gen
+    import args_emit as AE
+    t0 = time.time()
+    out = F.Outcome("C11")
+    rng = random.Random(seed)
+    MOD, TCFG = "TraceArgs.tla", "TraceArgs.cfg"
+    r = C.tlc_model("Args.tla", "ArgsMC.cfg")
+    out.model_states += r.generated
+    out.model_distinct += r.distinct
+    fam = r.printed()
+    out.model_runs.append({"module": "Args.tla", "cfg": "ArgsMC.cfg", "generated": r.generated, "distinct": r.distinct, "emitted": len(fam), "ok": r.ok})
+    if not r.ok:
+        raise F.ModelViolation("Args.tla", "ArgsMC.cfg", r.out)
+    fam = sorted(fam, key=lambda s: (s["kind"], s["shape"], s["pos"], s["cat"]))
+    rng.shuffle(fam)
+    sources = {}
+    per = 21
+    for b in range(0, len(fam), per):
+        sc = [(b + i, (s["kind"], s["shape"], s["pos"], s["cat"])) for i, s in enumerate(fam[b:b + per])]
+        sources["args%d" % (b // per)] = AE.program("args%d" % (b // per), sc)
+    res = gen.build_and_run(sources)
+    F.validate_program_outputs("C11", res, sources, out, "c11", TCFG, MOD)
+    if tier == "thorough":
+        for cxx, opt in (("clang++", "-O0"), ("g++", "-O2")):
+            tag = "_%s%s" % (cxx.replace("+", "p"), opt)
+            src2 = {k + tag: v.replace('\\"script\\":\\"%s\\"' % k, '\\"script\\":\\"%s\\"' % (k + tag)) for k, v in sources.items()}
+            res2 = gen.build_and_run(src2, cxx=cxx, opt=opt)
+            F.validate_program_outputs("C11", res2, src2, out, "c11" + tag, TCFG, MOD)
+        out.notes.append("all programs also built with clang++ -O0 and g++ -O2")
+    # negative control on a recorded log
+    n0 = sorted(res)[0]
+    if res[n0][0] == 0:
+        bad, done = [], False
+        for ln in [x for x in res[n0][1].splitlines() if x.startswith("{")]:
+            ev = json.loads(ln)
+            if not done and ev.get("e") == "args":
+                ev["r"]["self_ok"] = False
+                done = True
+                ln = json.dumps(ev, separators=(",", ":"))
+            bad.append(ln)
+        tp = os.path.join(C.scratch(), "c11.corrupt.ndjson")
+        with open(tp, "w") as f:
+            f.write("\n".join(bad) + "\n")
+        _, rj = C.validate_trace(MOD, TCFG, tp, parts=1)
+        out.selftests.append({"label": "address check of a recorded report set to false", "applied": done, "clean_accepted": True, "corrupt_rejected": bool(rj)})
+    n = out.action_counts.get("args", 0)
+    return F.report("C11", tier, seed, out, t0, LEVEL,
+                    rule="a case = one generated scenario of the family Kind x Shape x Pos x Cat (630 = 7 parameter kinds x 5 inheritance shapes between "
+                         "the method's and the definition's class x 3 positions x 6 categories of the neighbouring non-virtual parameter), compiled through "
+                         "the macro front end: inside the definition the parameter must designate the D sub-object of the caller's object (every class "
+                         "records its own address at construction), the same shared ownership, the non-virtual argument the same referent / value with "
+                         "the copy budget of Args.tla, the return value unchanged; distinct_nontrivial = distinct programs (scenarios: trace_action_counts.args)",
+                    assumptions=["the C++ compiler's object model is the reference for 'the right address' (self-identifying sub-objects); the specification "
+                                 "supplies the exhaustive enumeration of the family and the acceptance condition",
+                                 "the number of moves of a by-value parameter is recorded but not gated: every by-value hop of the call path costs one move by the rules of the language"],
+                    extra_cov={"scenarios": n, "programs": len(sources), "exhaustive": True})
+
+
+# ---------------------------------------------------------------------------
+def mt_script(rng, sid, threads, iters, updpol=3):
+    n = rng.randrange(3, 8)
+    classes, edges, _, _, _, kind = S.random_registry(rng, n, 0, 1, 0)
+    anc = S.anc_closure(edges, classes)
+    cov = {c: [x for x in classes if c in anc[x]] for c in classes}
+    lines = []
+    methods = [(1, "V", [rng.choice(classes)]), (2, "VV", [rng.choice(classes), rng.choice(classes)]),
+               (3, "PV", [rng.choice(classes), rng.choice(classes)]), (4, "V", [rng.choice(classes)])]
+    defs = []
+    for m, sh, vp in methods:
+        for d in range(rng.randrange(0, 5)):
+            defs.append((m, d, [rng.choice(cov[v]) for v in vp]))
+    recs = S.presentation(rng.choice(["direct", "complete"]), classes, edges, rng)
+    for p in range(4):
+        for c, bases in recs:
+            lines.append("c %d %d %d 0 %d %s" % (p, c, c, len(bases), " ".join(map(str, bases))))
+        for m, sh, vp in methods:
+            lines.append("m %d %d %s %d %s" % (p, m, sh, len(vp), " ".join(map(str, vp))))
+        for m, d, vp in defs:
+            lines.append("d %d %d %d %d %s" % (p, m, d, len(vp), " ".join(map(str, vp))))
+        lines.append("u %d" % p)
+    lines.append("MT %d %d %d %d" % (threads, iters, rng.randrange(1, 1 << 20), updpol))
+    return F.RawScript(sid, lines, "mt")
+
+
+def run_mt(exe, sc, tag):
+    """One script per process (a process is one concurrent experiment); ThreadSanitizer reports on
+    stderr become 'race' events."""
+    d = C.scratch()
+    sp = os.path.join(d, tag + ".script")
+    tp = os.path.join(d, tag + ".ndjson")
+    with open(sp, "w") as f:
+        f.write(sc.text())
+    rc, outp = C.sh([exe, sp, tp], timeout=600, env={"TSAN_OPTIONS": "exitcode=66 halt_on_error=0 report_signal_unsafe=0"})
+    races = outp.count("WARNING: ThreadSanitizer")
+    lines = []
+    if os.path.exists(tp):
+        with open(tp) as f:
+            lines = f.readlines()
+    lines = [ln for ln in lines if ln.strip() != '{"e":"end"}']
+    if not lines or not lines[0].startswith('{"e":"reset"'):
+        lines.insert(0, '{"e":"reset","script":"%s","bindings":["mt"]}\n' % sc.sid)
+    if races:
+        lines.append(json.dumps({"e": "race", "reports": races, "first": outp[outp.find("WARNING: ThreadSanitizer"):][:600]}) + "\n")
+    elif rc not in (0, 66):
+        lines.append(json.dumps({"e": "died", "sig": rc}) + "\n")
+    lines.append('{"e":"end"}\n')
+    return lines, races
+
+
+def check_C16(tier, seed):
+    TCFG = "TraceYomm2_mt.cfg"
+    t0 = time.time()
+    out = F.Outcome("C16")
+    rng = random.Random(seed)
+    exe = C.build_simple("mt", "mt.cpp", opt="-O1", san="thread", extra_flags=["-g"])
+    F.model_check(out, "Concurrency.tla", "Concurrency_other.cfg")
+    F.model_check(out, "Concurrency.tla", "Concurrency_same.cfg", expect_violation=True)
+    nscripts = 10 if tier == "quick" else 120
+    threads = 8 if tier == "quick" else 14
+    iters = 20000 if tier == "quick" else 60000
+    scs = [mt_script(rng, "mt%d" % i, threads, iters) for i in range(nscripts)]
+    import concurrent.futures as cf
+    with cf.ThreadPoolExecutor(max_workers=2 if tier == "quick" else 1) as ex:
+        results = list(ex.map(lambda a: run_mt(exe, a[1], "c16-%d" % a[0]), enumerate(scs)))
+    tp = os.path.join(C.scratch(), "c16.ndjson")
+    with open(tp, "w") as f:
+        for lines, races in results:
+            f.writelines(lines)
+    F.count_actions(tp, out.action_counts)
+    stats, rejs = C.validate_trace("TraceYomm2.tla", TCFG, tp)
+    out.trace_states += stats["generated"]
+    out.trace_distinct += stats["distinct"]
+    out.trace_lines += stats["lines"]
+    out.executions += stats["executions"]
+    out.scripts += len(scs)
+    out.policy_runs += len(scs)
+    by_id = {s.sid: s for s in scs}
+    for rej in rejs[:F.MAX_CONFIRM]:
+        sc = by_id.get(rej.script_id)
+        rdir = C.save_replay("C16", rej.script_id, {"script.txt": sc.text() if sc else "", "trace.ndjson": "".join(rej.block),
+                                                   "verdict.txt": "first unexplained trace line: %d\n%s\n" % (rej.line, rej.block[rej.line - 1][:1500] if rej.line <= len(rej.block) else "<end>")})
+        out.rejections.append((rej, rdir, None))
+    with open(tp) as f:
+        head = [json.loads(x) for x in f.readlines()[:30]]
+    out.samples.append({"script": scs[0].text().splitlines()[:12], "trace": head[-6:]})
+    # negative control: the updater works on a policy the callers use -> ThreadSanitizer must report, TLC must reject
+    neg = mt_script(random.Random(seed + 1), "neg", 6, 20000, updpol=0)
+    lines, races = run_mt(exe, neg, "c16-neg")
+    ntp = os.path.join(C.scratch(), "c16neg.ndjson")
+    with open(ntp, "w") as f:
+        f.writelines(lines)
+    _, nrej = C.validate_trace("TraceYomm2.tla", TCFG, ntp, parts=1)
+    out.selftests.append({"label": "update run concurrently on a policy the callers use (outside the property): race reported and trace rejected",
+                          "applied": True, "clean_accepted": True, "corrupt_rejected": bool(nrej) and races > 0, "tsan_reports": races})
+    st = [json.loads(l) for ls, _ in results for l in ls if l.startswith('{"e":"statics"')]
+    ncalls = sum(x["calls"] for x in st)
+    nupd = sum(x["updates"] for x in st)
+    if nupd == 0:
+        raise C.ToolFailure("vacuous: the concurrent updater never ran")
+    return F.report("C16", tier, seed, out, t0, LEVEL,
+                    rule="a case = one concurrent experiment: %d threads issue %d seeded random dispatches each (resolve and operator(), references and "
+                         "virtual_ptr created / copied / used per call) on three policies (fast hash; checked hash + indirect; vptr_map) holding the same "
+                         "random registry, while one thread repeatedly changes and updates a fourth policy; binary built with -fsanitize=thread; every "
+                         "distinct per-thread observation is validated by TLC against the sequential oracle; statics compared before / after; "
+                         "distinct_nontrivial = distinct experiments" % (threads, iters),
+                    assumptions=["data-race freedom in the C++ memory model is established by ThreadSanitizer acting as the recorder (its reports become events the "
+                                 "specification has no action for); TLC decides the interleaving model (Concurrency.tla) and every recorded outcome",
+                                 "registration records are hand built as in the dyn harness"],
+                    extra_cov={"concurrent_calls": ncalls, "concurrent_updates_of_other_policy": nupd, "threads": threads})
+
+
+CHECKS = {"C16": check_C16, "C11": check_C11, "C20": check_C20, "C13": check_C13, "C12": check_C12, "C19": check_C19, "C05": check_C05, "C18": check_C18, "C09": check_C09, "C15": check_C15, "C07": check_C07, "C10": check_C10, "C14": check_C14, "C04": check_C04, "C08": check_C08, "C01": check_C01, "C02": check_C02, "C03": check_C03, "C06": check_C06, "C17": check_C17}
